@@ -1109,6 +1109,10 @@ decl(struct scope *s, struct func *f)
 					error(&tok.loc, "object '%s' with block scope and %s linkage cannot have initializer", name, d->linkage == LINKEXTERN ? "external" : "internal");
 				if (d->defined)
 					error(&tok.loc, "object '%s' redefined", name);
+				if (d->type->kind == TYPEARRAY && d->type->incomplete) {
+					/* the initializer completes this object's type only: a typedef may share the array type */
+					d->type = mkarraytype(d->type->base, d->type->qual, 0);
+				}
 				init = parseinit(s, d->type);
 				hasinit = true;
 			} else if (sc & SCEXTERN) {
